@@ -462,6 +462,11 @@ pub(crate) struct SolveState<'forest, I: Interner> {
 impl<'forest, I: Interner> Drop for SolveState<'forest, I> {
     fn drop(&mut self) {
         if !self.stack.is_empty() {
+            #[cfg(chalk_verif)]
+            crate::verif::note_unwind(
+                std::thread::panicking(),
+                self.stack.top().active_strand.is_some(),
+            );
             if let Some(active_strand) = self.stack.top().active_strand.take() {
                 let table = self.stack.top().table;
                 self.forest.tables[table].enqueue_strand(active_strand);
